@@ -109,6 +109,39 @@ def run_episode(kind, script, horizon, pm, tkind, tmpdir):
     return rec, pm
 
 
+def run_train(kind, script, horizon, pm, iterations, tmpdir):
+    """DebugTrainer.train(iterations, horizon=h): returns one record per generated episode"""
+    sim = StubSim(script)
+    manager = mgr.make_manager(kind, sim, False)
+    trace, qlog, queries = [], [], []
+    instrument(manager, sim, trace, qlog, queries)
+    spaces = dict(action_space=Discrete(10), observation_space=MultiDiscrete([1000] * 4))
+    pids = sorted(set(pm))
+    policies = {f"p{p}": CountingPolicy(p, qlog, **spaces) for p in pids}
+    fn = lambda aid: f"p{pm[sim.idx[aid]]}"  # noqa: E731
+    trainer = DebugTrainer(sim=manager, policies=policies, policy_mapping_fn=fn, output_dir=tmpdir)
+    recs = []
+    real_gen = trainer.generate_episode
+
+    def gen(**kw):
+        t0, q0 = len(trace), len(queries)
+        observations, actions, rewards, dones = real_gen(**kw)
+        alld = [bool(x) for x in dones.get("__all__", [])]
+        recs.append([[[sim.idx[k], [[int(x) for x in o] for o in v]] for k, v in observations.items()],
+                     [[sim.idx[k], [int(x) for x in v]] for k, v in actions.items()],
+                     [[sim.idx[k], [int(x) for x in v]] for k, v in rewards.items()],
+                     [[sim.idx[k], [bool(x) for x in v]] for k, v in dones.items() if k != "__all__"],
+                     alld, trace[t0:], queries[q0:], []])
+        return observations, actions, rewards, dones
+
+    trainer.generate_episode = gen
+    import io
+    import contextlib
+    with contextlib.redirect_stdout(io.StringIO()):
+        st, val = mgr.guarded(lambda: trainer.train(iterations=iterations, horizon=horizon), seconds=20)
+    return recs, st
+
+
 class TrainerProp(core.Prop):
     pid = "C16"
     lean_targets = ["Abmarl.Props.C16"]
@@ -132,8 +165,21 @@ class TrainerProp(core.Prop):
             tags.append("exc:" + rec[7][0])
         return core.Case(desc, line, wire.enc(rec), key=json.dumps(desc, sort_keys=True), nontrivial=fin, tags=tags)
 
+    def _train_case(self, kind, script, horizon, pm, iterations):
+        recs, st = run_train(kind, script, horizon, pm, iterations, self.tmp)
+        line = wire.enc(["train", kind, script_to_wire(script), horizon, pm, iterations, recs])
+        desc = {"kind": kind, "script": script, "horizon": horizon, "pmap": pm, "trainer": "train",
+                "iterations": iterations}
+        tags = [mgr.KINDS[kind], "train", "iterations:%d" % iterations]
+        if st != "ok":
+            tags.append("exc:" + st)
+        early = any(len(r[5]) - 1 >= horizon for r in recs)
+        return core.Case(desc, line, wire.enc(recs), key=json.dumps(desc, sort_keys=True), nontrivial=early, tags=tags)
+
     def case_from_desc(self, d):
         self._ensure_tmp()
+        if d["trainer"] == "train":
+            return self._train_case(d["kind"], d["script"], d["horizon"], d["pmap"], d["iterations"])
         return self._case(d["kind"], d["script"], d["horizon"], d["pmap"], d["trainer"])
 
     def _ensure_tmp(self):
@@ -163,6 +209,14 @@ class TrainerProp(core.Prop):
                 tkind = rng.choice(["single", "multi", "debug"])
                 pm = [rng.randrange(3) for _ in range(script["n"])]
                 yield self._case(kind, script, horizon, pm, tkind)
+            # DebugTrainer.train: several episodes in a row with an explicit horizon
+            for _ in range(150 if quick else 5000):
+                kind = rng.randrange(3)
+                script = mgr.gen_script(rng)
+                if kind == 2:
+                    script["noms"] = []
+                pm = [rng.randrange(3) for _ in range(script["n"])]
+                yield self._train_case(kind, script, rng.randint(0, 6), pm, rng.randint(1, 4))
         finally:
             shutil.rmtree(self.tmp, ignore_errors=True)
             self.tmp = None
